@@ -58,4 +58,6 @@ PbGrammar == LET m == Marshal(pbList) IN
 RECURSIVE PbSize(_)
 PbSize(us) == IF us = << >> THEN 0 ELSE 3 + Head(us).len + PbSize(Tail(us))
 PbLength == Len(Marshal(pbList)) = 1 + PbSize(pbList)
+\* NEGATIVE CONTROL (must be violated): refusals are reachable, so PbErrors / PbFrame are not vacuous
+PbNoRefusal == \A k \in 1..Len(pbOut) : pbOut[k].ok
 =============================================================================
